@@ -159,13 +159,20 @@ def _yield_loop_shape(body):
     """nested `for` loops whose innermost statements are plain `yield expr`"""
     if not body:
         return False
+    seen_yield = False
     for st in body:
         if isinstance(st, ast.Expr) and isinstance(st.value, ast.Yield):
+            seen_yield = True
             continue
         if isinstance(st, ast.For) and not st.orelse and _yield_loop_shape(st.body):
+            seen_yield = True
+            continue
+        if isinstance(st, ast.Assign) and all(isinstance(t, (ast.Name, ast.Tuple)) for t in st.targets):
+            continue  # a local temporary
+        if isinstance(st, ast.AnnAssign) and isinstance(st.target, ast.Name) and st.value is not None:
             continue
         return False
-    return True
+    return seen_yield
 
 
 def _search_loop_shape(body):
